@@ -22,6 +22,9 @@ pub enum C05Case {
         filesigs: Option<Val>,
         #[serde(default)]
         order: Vec<u16>,
+        /// number of trailing index records (after permutation) left outside the region
+        #[serde(default)]
+        dribbles: u8,
     },
     Asset(u8),
 }
@@ -163,8 +166,8 @@ fn mat() -> BoxedStrategy<Mat> {
 fn model_strategy() -> BoxedStrategy<C05Case> {
     let table = tag_table();
     let n = table.len();
-    (proptest::collection::vec(mat(), n), proptest::collection::vec((0u8..10, 0usize..5), 11), proptest::option::weighted(0.3, mat()), prop_oneof![2 => Just(vec![]), 1 => proptest::collection::vec(any::<u16>(), n)])
-        .prop_map(move |(mats, groups, fs, order)| {
+    (proptest::collection::vec(mat(), n), proptest::collection::vec((0u8..10, 0usize..5), 11), proptest::option::weighted(0.3, mat()), (prop_oneof![2 => Just(vec![]), 1 => proptest::collection::vec(any::<u16>(), n)], prop_oneof![3 => Just(0u8), 1 => 1u8..4, 1 => 4u8..200]))
+        .prop_map(move |(mats, groups, fs, (order, dribbles))| {
             let mut main: BTreeMap<u32, Val> = BTreeMap::new();
             for (i, (tag, ty, group)) in table.iter().enumerate() {
                 let m = &mats[i];
@@ -221,7 +224,7 @@ fn model_strategy() -> BoxedStrategy<C05Case> {
                 main.insert(t::FILEDIGESTALGO, Val::Int32(vec![8]));
             }
             let filesigs = fs.map(|m| if m.mode >= 16 { m.wrong.clone() } else { make_val(Ty::StrArr, &m.strs, &m.ints) });
-            C05Case::Model { main: main.into_iter().collect(), filesigs, order }
+            C05Case::Model { main: main.into_iter().collect(), filesigs, order, dribbles }
         })
         .boxed()
 }
@@ -730,7 +733,7 @@ impl Property for C05 {
         ]
     }
     fn required_labels(&self, _t: Tier) -> Vec<&'static str> {
-        vec!["model", "asset", "unsorted-index", "multi-locale-i18n", "i18n-zero-items", "wrong-type-present", "file-entries-nonempty", "long-sizes", "dirindex-out-of-range", "count-zero-scalar"]
+        vec!["records-outside-region", "model", "asset", "unsorted-index", "multi-locale-i18n", "i18n-zero-items", "wrong-type-present", "file-entries-nonempty", "long-sizes", "dirindex-out-of-range", "count-zero-scalar"]
     }
     fn phases(&self, tier: Tier) -> Vec<Phase<C05Case>> {
         vec![
@@ -742,7 +745,7 @@ impl Property for C05 {
         let mut o = Outcome::new();
         let r = (|| -> Result<(), (String, String)> {
             let (bytes, main, sig): (Vec<u8>, BTreeMap<u32, Val>, BTreeMap<u32, Val>) = match case {
-                C05Case::Model { main, filesigs, order } => {
+                C05Case::Model { main, filesigs, order, dribbles } => {
                     o.label("model");
                     let mainmap: BTreeMap<u32, Val> = main.iter().cloned().collect();
                     let table = tag_table();
@@ -781,7 +784,10 @@ impl Property for C05 {
                         }
                     }
                     let entries: Vec<(u32, Val)> = entries.into_iter().map(|(_, e)| e).collect();
-                    let hdr = fmt::layout(&entries, Some(fmt::TAG_HEADERIMMUTABLE));
+                    if *dribbles > 0 && !entries.is_empty() {
+                        o.label("records-outside-region");
+                    }
+                    let hdr = fmt::layout_with_dribbles(&entries, Some(fmt::TAG_HEADERIMMUTABLE), *dribbles as usize);
                     let mut sigmap = BTreeMap::new();
                     if let Some(v) = filesigs {
                         sigmap.insert(t::SIG_FILESIGNATURES, v.clone());
